@@ -4,7 +4,7 @@ from .common import Exc
 from .oracle_env import env_for
 from .url_grammar import gen_url, gen_su, spelling_variants, call
 
-THEOREMS = ['C02_port_idem', 'C02_upper_quoted_idem', 'C02_safely_quote_idem', 'C02_examples (computed)'] + ["(main statement: harness deciders on the implementation + model correspondence — partial)"]
+THEOREMS = ['C02_port_idem', 'C02_upper_quoted_idem', 'C02_safely_quote_idem', 'C02_unquote_idem', 'C02_unquote_qsl_idem', 'C02_control_characters_irrelevant', 'C02_is_control_char', 'C02_surrounding_junk_irrelevant', 'C02_examples (computed)'] + ["(main statement: harness deciders on the implementation + model correspondence — partial)"]
 
 
 def colonless_protocol(u):
